@@ -155,8 +155,9 @@ func c20Airtime(c *core.Ctx, sf, bw, cr, pre int, header, ldro bool) {
 	symExact := big.NewRat(int64(1)<<uint(sf)*1000000, int64(bw)) // ns
 	symLib := airtime.CalculateLoRaSymbolDuration(sf, bw)
 	c.Eval(1)
-	fl := new(big.Int).Quo(symExact.Num(), symExact.Denom())
-	if fl.Int64() != int64(symLib) {
+	// durations are whole nanoseconds: the formula's value may be cut off (as the library does) or rounded,
+	// so every comparison allows the quantisation error in either direction
+	if e := new(big.Rat).Sub(symExact, big.NewRat(int64(symLib), 1)); e.Abs(e).Cmp(big.NewRat(1, 1)) >= 0 {
 		c.Violate(fmt.Sprintf("C20|airtime|symbol-duration|bw=%d", bw), "SF%d BW%d: symbol duration %v, exact %s ns", sf, bw, symLib, symExact.FloatString(3))
 		return
 	}
@@ -164,7 +165,7 @@ func c20Airtime(c *core.Ctx, sf, bw, cr, pre int, header, ldro bool) {
 	preExact := new(big.Rat).Mul(big.NewRat(int64(100*pre+425), 100), symExact)
 	diff := new(big.Rat).Sub(preExact, big.NewRat(int64(preLib), 1))
 	c.Eval(1)
-	if diff.Sign() < 0 || diff.Cmp(big.NewRat(int64(pre)+6, 1)) > 0 {
+	if diff.Abs(diff).Cmp(big.NewRat(int64(pre)+6, 1)) > 0 {
 		c.Violate("C20|airtime|preamble", "SF%d BW%d preamble %d: %v vs exact %s ns", sf, bw, pre, preLib, preExact.FloatString(3))
 	}
 	var prev time.Duration
@@ -186,7 +187,7 @@ func c20Airtime(c *core.Ctx, sf, bw, cr, pre int, header, ldro bool) {
 		}
 		exact := new(big.Rat).Add(preExact, new(big.Rat).Mul(big.NewRat(n, 1), symExact))
 		d := new(big.Rat).Sub(exact, big.NewRat(int64(at), 1))
-		if d.Sign() < 0 || d.Cmp(big.NewRat(int64(pre)+6+n, 1)) > 0 {
+		if d.Abs(d).Cmp(big.NewRat(int64(pre)+6+n, 1)) > 0 {
 			c.Violate(fmt.Sprintf("C20|airtime|duration|bw=%d", bw), "PL=%d SF%d BW%d CR%d pre=%d H=%d DE=%d: %v (%d ns) vs exact %s ns", pl, sf, bw, cr, pre, h, de, at, int64(at), exact.FloatString(3))
 			return
 		}
